@@ -121,6 +121,24 @@ Proof.
   pose proof (fibonacci_invariant cmp eqv TO sizes ops Hws i h Hi) as H. destruct h; simpl in H; try tauto; eauto.
 Qed.
 
+(** Binomial heap: [n] is the sum of [2^order] over the root list and the orders are strictly
+    increasing, i.e. the root orders are exactly the positions of the one-bits of [n]. *)
+Theorem C04_binomial_roots_are_bits_of_n :
+  forall (K V : Type) (cmp : K -> K -> Z) (eqv : V -> V -> bool), TotalOrder K cmp ->
+  forall sizes ops, well_scoped K V true (all_live sizes) ops = true ->
+  forall i b, nth_error (p_final K V cmp eqv (p_init K V Binomial sizes) ops) i = Some (Some (HN b)) ->
+    n_n K V b = sum2 (ords (n_head K V b)) /\ Sorted.StronglySorted lt (ords (n_head K V b)).
+Proof. intros K V cmp eqv TO. exact (binomial_bits cmp eqv TO). Qed.
+
+(** Fibonacci heap: after a Delete that returned an entry, the root degrees are pairwise
+    distinct ([consolidate] leaves at most one tree per degree); [finv] holds in every reachable
+    state by [C04_fibonacci_invariant]. *)
+Theorem C04_fibonacci_delete_consolidates :
+  forall (K V : Type) (cmp : K -> K -> Z), TotalOrder K cmp ->
+  forall (b b' : fheap K V) e,
+    finv cmp b -> f_delete K V cmp b = Ok (b', Some e) -> NoDup (map (ft_degree K V) (f_ring K V b')).
+Proof. intros K V cmp TO. exact (f_delete_consolidates cmp TO maxdeg_ok). Qed.
+
 (** The degree table suffices: a tree of degree [d] has at least [2^d] nodes (no cuts in the
     non-indexed heap) and [maxDegree(n) = 1 + max {d | φ^d <= n} > log2 n]. *)
 Theorem C04_degree_table_bound :
@@ -172,6 +190,8 @@ Print Assumptions C04_spec_merge.
 Print Assumptions C04_binary_invariant.
 Print Assumptions C04_binomial_invariant.
 Print Assumptions C04_fibonacci_invariant.
+Print Assumptions C04_binomial_roots_are_bits_of_n.
+Print Assumptions C04_fibonacci_delete_consolidates.
 Print Assumptions C04_degree_table_bound.
 Print Assumptions C04_reverse_comparator.
 Print Assumptions C04_acceptor_sound.
